@@ -50,6 +50,7 @@ def _child_main(inv: dict, wfd: int) -> None:
     status = "harness"
     exc_msg = ""
     seams = None
+    session_results = None  # type: typing.Any
     try:
         for k in inv.get("env_unset", []):
             os.environ.pop(k, None)
@@ -103,6 +104,11 @@ def _child_main(inv: dict, wfd: int) -> None:
 
                 rc = nunavut.cli.main()
                 status = "ok" if not rc else "exit:%r" % (rc,)
+            elif mode == "api_session":
+                from . import apisession
+
+                session_results = apisession.run(inv["session"], seams)
+                status = "ok"
             else:
                 raise HarnessError("unknown entry %r" % mode)
         except SystemExit as ex:
@@ -137,6 +143,8 @@ def _child_main(inv: dict, wfd: int) -> None:
         "clock_end": seams.clock.now if seams and seams.clock else None,
         "clock_ticks": seams.clock.ticks if seams and seams.clock else 0,
     }
+    if session_results is not None:
+        final["session"] = session_results
     data = (json.dumps(final) + "\n").encode("utf-8")
     view = memoryview(data)
     while view:
